@@ -311,13 +311,21 @@ func checkSigGates(c *core.Ctx) {
 			}
 		}
 	}
-	if multiIf == nil {
-		c.Unk(rule, "RunTx/multisig-arm", fn.Pos(), "the `tx.SignatureType == SigTypeMulti` branch was not found")
-		return
+	// the test may also sit, as a guard clause, at the top of a helper that RunTx calls for every
+	// transaction (`if tx.SignatureType != SigTypeMulti { return nil }`): then the whole function
+	// is searched for the helper and the arm is the helper's part behind the guard
+	inArm := map[*ssa.BasicBlock]bool{}
+	arm := fn.Blocks[0]
+	var hStart *ssa.BasicBlock // where the multisig part of a helper starts (its entry, or behind its guard)
+	if multiIf != nil {
+		arm = multiIf.Block().Succs[0]
+		join := multiIf.Block().Succs[1]
+		inArm = core.ReachFrom(arm, map[*ssa.BasicBlock]bool{join: true})
+	} else {
+		for _, b := range fn.Blocks {
+			inArm[b] = true
+		}
 	}
-	arm := multiIf.Block().Succs[0]
-	join := multiIf.Block().Succs[1]
-	inArm := core.ReachFrom(arm, map[*ssa.BasicBlock]bool{join: true})
 	rets := map[*ssa.BasicBlock]bool{}
 	for _, r := range m.Returns {
 		if r.Class != "ok" {
@@ -381,10 +389,37 @@ func checkSigGates(c *core.Ctx) {
 		regionFn = h
 		regionTx = ""
 		for i, pp := range h.Params {
-			if i < len(call.Call.Args) && strings.TrimPrefix(core.Path(call.Call.Args[i]), "&") == tx {
+			if i < len(core.NormCall(&call.Call).Args) && strings.TrimPrefix(core.Path(core.NormCall(&call.Call).Args[i]), "&") == tx {
 				regionTx = core.ParamName(pp)
 			}
 		}
+		if multiIf == nil {
+			// the guard inside the helper
+			for _, hb := range h.Blocks {
+				iff := core.IfOf(hb)
+				if iff == nil {
+					continue
+				}
+				bin, ok := iff.Cond.(*ssa.BinOp)
+				if !ok || (bin.Op != token.EQL && bin.Op != token.NEQ) || core.Path(bin.X) != regionTx+".SignatureType" {
+					continue
+				}
+				if k, ok := core.ConstInt(bin.Y); ok && k == 2 {
+					multiIf = iff
+					side := hb.Succs[0]
+					if bin.Op == token.NEQ {
+						side = hb.Succs[1]
+					}
+					region = core.ReachFrom(side, nil)
+					region[side] = true
+					hStart = side
+				}
+			}
+		}
+	}
+	if multiIf == nil {
+		c.Unk(rule, "RunTx/multisig-arm", fn.Pos(), "the `tx.SignatureType == SigTypeMulti` branch was not found")
+		return
 	}
 	type g struct {
 		name string
@@ -400,7 +435,7 @@ func checkSigGates(c *core.Ctx) {
 	for b := range region {
 		for _, in := range b.Instrs {
 			if bin, ok := in.(*ssa.BinOp); ok && bin.Op == token.ADD {
-				if call, ok := core.Unwrap(bin.Y).(*ssa.Call); ok && strings.HasSuffix(core.CalleeName(&call.Call), ".GetWeight") {
+				if call, ok := core.Unwrap(bin.Y).(*ssa.Call); ok && strings.HasSuffix(core.CalleeName(core.NormCall(&call.Call)), ".GetWeight") {
 					s := &core.Site{Instr: call, Common: &call.Call}
 					if isRecovered(s.Arg(0)) {
 						weightAdd = bin
@@ -451,7 +486,7 @@ func checkSigGates(c *core.Ctx) {
 		}
 		switch x := cond.(type) {
 		case *ssa.Call:
-			if strings.HasSuffix(core.CalleeName(&x.Call), ".IsMultisig") && !rejectWhen && regionTx != "" && strings.Contains(core.Path(x.Call.Args[0]), ".GetAccount("+regionTx+".multisig.Multisig)") {
+			if strings.HasSuffix(core.CalleeName(core.NormCall(&x.Call)), ".IsMultisig") && !rejectWhen && regionTx != "" && strings.Contains(core.Path(core.NormCall(&x.Call).Args[0]), ".GetAccount("+regionTx+".multisig.Multisig)") {
 				gates["is-multisig"].ok, gates["is-multisig"].pos = true, iff.Pos()
 			}
 		case *ssa.Lookup:
@@ -489,7 +524,7 @@ func checkSigGates(c *core.Ctx) {
 	var recoverBlock *ssa.BasicBlock
 	for b := range region {
 		for _, in := range b.Instrs {
-			if call, ok := in.(*ssa.Call); ok && core.CalleeName(&call.Call) == "coreV2/transaction.RecoverPlain" && core.InCycle(b) {
+			if call, ok := in.(*ssa.Call); ok && core.CalleeName(core.NormCall(&call.Call)) == "coreV2/transaction.RecoverPlain" && core.InCycle(b) {
 				recoverBlock = b
 			}
 		}
@@ -538,10 +573,13 @@ func checkSigGates(c *core.Ctx) {
 			} else {
 				// every accepting (nil) return of the helper passes the threshold test, and the arm
 				// reaches the dispatch only through the helper's accepting outcome
-				reachH := core.ReachFrom(regionFn.Blocks[0], map[*ssa.BasicBlock]bool{thresholdBlock: true})
+				if hStart == nil {
+					hStart = regionFn.Blocks[0]
+				}
+				reachH := core.ReachFrom(hStart, map[*ssa.BasicBlock]bool{thresholdBlock: true})
 				okDom = true
 				for _, r := range core.Returns(regionFn) {
-					if !rejecting[r.Block()] && r.Block() != regionFn.Recover && (reachH[r.Block()] || r.Block() == regionFn.Blocks[0]) {
+					if !rejecting[r.Block()] && r.Block() != regionFn.Recover && (reachH[r.Block()] || r.Block() == hStart) {
 						okDom = false
 					}
 				}
@@ -577,8 +615,8 @@ func checkSigGates(c *core.Ctx) {
 			case isRecovered(o):
 				if ex, ok := o.(*ssa.Extract); ok {
 					call := ex.Tuple.(*ssa.Call)
-					if core.Path(call.Call.Args[0]) != "tx.Hash()" {
-						bad = "recovered from something other than tx.Hash(): " + core.Path(call.Call.Args[0])
+					if core.Path(core.NormCall(&call.Call).Args[0]) != "tx.Hash()" {
+						bad = "recovered from something other than tx.Hash(): " + core.Path(core.NormCall(&call.Call).Args[0])
 					}
 				}
 			case senderMemo(sfn) != "" && (p == "tx."+senderMemo(sfn) || p == "*tx."+senderMemo(sfn)):
@@ -656,7 +694,7 @@ func posOfVal(v *ssa.BinOp) token.Pos {
 func isRecovered(v ssa.Value) bool {
 	for _, o := range core.Origins(v) {
 		if ex, ok := o.(*ssa.Extract); ok && ex.Index == 0 {
-			if call, ok := ex.Tuple.(*ssa.Call); ok && core.CalleeName(&call.Call) == "coreV2/transaction.RecoverPlain" {
+			if call, ok := ex.Tuple.(*ssa.Call); ok && core.CalleeName(core.NormCall(&call.Call)) == "coreV2/transaction.RecoverPlain" {
 				return true
 			}
 		}
@@ -672,7 +710,7 @@ func isNilErrOfRecover(bin *ssa.BinOp) bool {
 		return false
 	}
 	if ex, ok := core.Unwrap(bin.X).(*ssa.Extract); ok && ex.Index == 1 {
-		if call, ok := ex.Tuple.(*ssa.Call); ok && core.CalleeName(&call.Call) == "coreV2/transaction.RecoverPlain" {
+		if call, ok := ex.Tuple.(*ssa.Call); ok && core.CalleeName(core.NormCall(&call.Call)) == "coreV2/transaction.RecoverPlain" {
 			return true
 		}
 	}
